@@ -102,6 +102,13 @@ static CURRENT: Mutex<Option<Arc<Sched>>> = Mutex::new(None);
 /// data structure and returns diagnoses, which become notes of the run.
 pub type Probe = Box<dyn Fn(&TraceEv) -> Vec<String> + Send>;
 pub static MID_PROBE: Mutex<Option<Probe>> = Mutex::new(None);
+/// Called by the controller right after a worker has performed a *write* (store, swap, successful
+/// CAS) and is suspended again at its next hook, every other worker being suspended too:
+/// (thread, index of the write's event in the trace, the event). `conc::run_conc` uses it to
+/// recompute the abstract content of the real structure ("what a lookup started now would find")
+/// and to record every change of it with the access that caused it (`[abs-point]`).
+pub type AbsProbe = Box<dyn Fn(usize, usize, &TraceEv) + Send>;
+pub static ABS_PROBE: Mutex<Option<AbsProbe>> = Mutex::new(None);
 /// Solo policy with `after_store = Some(0)`: the reader starts to run alone right after another
 /// thread has overwritten a cell that held one of these objects (the tree bins present when the
 /// run started): the moment a tree bin has just been forwarded / replaced
@@ -585,6 +592,20 @@ pub fn drive(s: &Arc<Sched>, policy: &Policy, rng: &mut crate::types::Rng, budge
             };
             if wrote && rng.chance(3, 4) {
                 hold = Some((pick, 1 + rng.below(8) as usize));
+            }
+        }
+        {
+            // abstract-content probe: the write `pick` has just performed
+            let last_w = {
+                let g = s.inner.lock().unwrap();
+                g.trace.iter().enumerate().rev().take(64).find(|(_, e)| e.tid == pick && is_yield(e.kind)).map(|(i, e)| (i, e.clone()))
+            };
+            if let Some((ix, ev)) = last_w {
+                if matches!(ev.kind, Kind::Store | Kind::Swap) || (ev.kind == Kind::Cas && ev.ok) {
+                    if let Some(p) = ABS_PROBE.lock().unwrap().as_ref() {
+                        p(pick, ix, &ev);
+                    }
+                }
             }
         }
         {
